@@ -32,6 +32,26 @@ def line_cells(axis, n, b, r):
     return [b * n * n + s * n + r for s in range(n)]
 
 
+def stencil_in(n, it, jd):
+    """table indices jd+j-(it-1)/2 (j<it) all inside [0,n): updateSM keeps every weight"""
+    return (it - 1) // 2 <= jd and jd + (it - 1) - (it - 1) // 2 < n
+
+
+def touches_table_edge(axis, n, it, nb, lb, off, data):
+    """some line with non-zero data is transported with a row whose stencil leaves the table
+    (known finding kick-table-edge: such rows lose weights)"""
+    for b in range(nb):
+        for r in range(n):
+            row = (min(b, lb) * n + r) if axis == "y" else r
+            sp = split_off(n, off[row])
+            if sp is None:
+                continue
+            cells = line_cells(axis, n, b, r)
+            if any(data[c] != 0.0 for c in cells) and sp[0] < n and not stencil_in(n, it, sp[0]):
+                return True
+    return False
+
+
 def is_interior(axis, n, it, nb, lb, off, data):
     for b in range(nb):
         for r in range(n):
@@ -89,9 +109,26 @@ def gen_kick_cases(rng, count, sizes, nbs=(1, 2, 3), prefix="k", want_parts=True
         rec = dict(id=cid, axis=axis, n=n, it=it, nb=nb, lb=lb, off=off, data=data, parts=parts,
                    fam=fam, dfam=dfam)
         rec["interior"] = is_interior(axis, n, it, nb, lb, off, data)
+        rec["table_edge"] = touches_table_edge(axis, n, it, nb, lb, off, data)
         rec["optext"] = C.kick_case(cid, axis, n, it, nb, lb if axis == "y" else -1, off, data, parts)
         out.append(rec)
     return out
+
+
+def table_edge_witness():
+    """the Lean counterexample `kick_line_conserves_full_false` as an implementation case:
+    n=4, linear interpolation, displacement +1.5 cells (jd=3, xip=1/2), unit impulse at cell 2 of
+    line 0: support before (cell 2) and after (cells 0,1) inside the grid, half the charge is lost"""
+    n, it, nb = 4, 2, 1
+    off = [1.5] * n
+    data = [0.0] * (n * n)
+    data[0 * n + 2] = 1.0
+    rec = dict(id="kedge", axis="y", n=n, it=it, nb=nb, lb=0, off=off, data=data, parts=None,
+               fam="witness", dfam="impulse")
+    rec["interior"] = is_interior("y", n, it, nb, 0, off, data)
+    rec["table_edge"] = touches_table_edge("y", n, it, nb, 0, off, data)
+    rec["optext"] = C.kick_case("kedge", "y", n, it, nb, -1, off, data, None)
+    return rec
 
 
 def conservation_budget(rec):
